@@ -16,7 +16,7 @@ mut("jsonname-raw-tag", "analysis/compounds.go", '\tname, _, _ := strings.Cut(st
 mut("exported-ignores-json-dash", "analysis/compounds.go", '\tif name := st.Tag.Get("json"); name == "-" {\n\t\treturn false\n\t}\n', "", ["C09", "C03"])
 mut("isiota-duplicates", "analysis/enums.go", "\t\tif seen[v] {\n\t\t\treturn // duplicated value : positions and values do not match\n\t\t}\n", "", ["C10", "C06"])
 mut("unions-admit-interfaces", "analysis/unions.go", "\t\t\tif _, isItf := member.Underlying().(*types.Interface); isItf {\n\t\t\t\tcontinue\n\t\t\t}\n", "", ["C11"])
-mut("no-early-registration", "analysis/analysis.go", "\t\t\tan.Types[typ] = str                         // register before recursing\n", "", ["C12", "C18"])
+mut("no-early-registration", "analysis/analysis.go", "\t\t\tan.Types[typ] = str                                        // register before recursing\n", "", ["C12", "C18"])
 mut("placeholder-off-by-one", "generator/go/sqlcrud/sql.go", 'placeholdersNoPrimary = append(placeholdersNoPrimary, fmt.Sprintf("$%d", len(placeholdersNoPrimary)+1))', 'placeholdersNoPrimary = append(placeholdersNoPrimary, fmt.Sprintf("$%d", len(placeholdersNoPrimary)+2))', ["C05"])
 mut("update-where-id-wrong-index", "generator/go/sqlcrud/primary_table.go", "\t\tcols.columnsCount, ta.Columns[primaryIndex].Field.Field.Name(),", "\t\tcols.columnsCount-1, ta.Columns[primaryIndex].Field.Field.Name(),", ["C05"])
 mut("uint8-not-smallint", "analysis/sql/types.go", "\t\tcase types.Int16, types.Uint8:\n", "\t\tcase types.Int16:\n", ["C08"])
